@@ -1085,8 +1085,15 @@ class Grammar(PGFile):
             if isinstance(term.recognizer, StringRecognizer):
                 match = keyword_rec(term.recognizer.value, 0)
                 if match == term.recognizer.value:
+                    # The keyword text must be matched literally and must not
+                    # be preceded/followed by a word character. `\b` means
+                    # that only next to a word character of the keyword.
+                    start = r"\b" if re.match(r"\w", match[0]) else r"(?<!\w)"
+                    end = r"\b" if re.match(r"\w", match[-1]) else r"(?!\w)"
                     term.recognizer = RegExRecognizer(
-                        rf"\b{match}\b", ignore_case=term.recognizer.ignore_case
+                        f"{start}{re.escape(match)}{end}",
+                        name=match,
+                        ignore_case=term.recognizer.ignore_case,
                     )
                     term.keyword = True
 
